@@ -32,6 +32,9 @@ pub fn cfg_list(n: u32) -> Vec<Cfg> {
 }
 
 pub fn replay_with(prop: &'static str, checks: Checks, case: &Value) -> Vec<String> {
+    if let Some(r) = super::many::replay(if checks.c17 { "C17" } else { "C01" }, case) {
+        return r;
+    }
     let ctx = Ctx::new(prop, Tier::Quick, "model_checking");
     let world = world_from_desc(&case["world"]);
     let history: Vec<Op> = match serde_json::from_value(case["history"].clone()) {
@@ -91,7 +94,11 @@ pub fn run_insert_only(prop: &'static str, checks: Checks, tier: Tier) -> i32 {
             "completed_depth": st.completed_depth, "states": st.states, "transitions": st.transitions, "states_per_depth": st.states_per_depth,
             "match_calls": model.match_calls.load(Ordering::Relaxed)}));
     }
+    let (many_cases, many_probes) = super::many::run(&ctx, if checks.c17 { "C17" } else { "C01" }, tier == Tier::Thorough);
+    match_calls += many_probes;
     let mut cov = Coverage::new();
+    cov.set("many_rules_pass", json!({"cases": many_cases, "probes_judged": many_probes, "families": super::many::DIMS, "sizes": [60, 130],
+        "what": "routers holding 60 / 130 rules that differ in ONE trigger dimension; for every rule the request satisfying it alone is matched (C01: against the flat predicate) / traced (C17: trace == match, final priority, last action step), cold and after cache(None)"}));
     cov.set("states", json!(states))
         .set("transitions", json!(transitions))
         .set("traces_validated_against_impl", json!(transitions))
